@@ -174,6 +174,30 @@ func init() {
 				} else {
 					checkBookkeeping(e, h, "reopened", pk, true)
 				}
+				// a NEW handle that never loaded anything commits on the same store: its version number
+				// (1, or the configured initial version) exists already with other contents, so the commit
+				// must fail and leave the store unchanged
+				if e.Step%9 == 4 && e.M.Latest > 0 && !e.M.Dirty {
+					start := int64(1)
+					if e.M.Initial > 0 {
+						start = e.M.Initial
+					}
+					if e.M.Exists(start) {
+						pre, _ := seam.Dump(e.W.Inner)
+						cfgH := e.Cfg
+						cfgH.Initial = e.M.Initial
+						h := e.OpenHandle(cfgH)
+						h.Set([]byte("cold-handle-key"), []byte(fmt.Sprintf("cold-%d", e.Step)))
+						_, hv, herr := h.SaveVersion()
+						post, _ := seam.Dump(e.W.Inner)
+						if herr == nil {
+							e.Bad("book|cold-handle|overwrote", "a handle that never loaded committed version %d although that version exists with different contents (SaveVersion returned no error)", hv)
+						} else if !pre.Equal(post) {
+							e.Bad("book|cold-handle|store-changed", "the rejected commit of version %d through a handle that never loaded changed the raw store", hv)
+						}
+						c.Obs("cold_handle_commits_rejected", 1)
+					}
+				}
 				if out.Expect.Fail && out.Err != nil {
 					// "... fails and leaves the tree usable": after a rejected load / re-commit / deletion the
 					// working tree (incl. its uncommitted writes) still answers every read as before, and
@@ -190,7 +214,7 @@ func init() {
 			c.Res.Nontrivial = saves >= 3 && special >= 1
 		},
 		Floor: func(obs map[string]int, evals, nontrivial int) string {
-			if obs["version_queries"] < 10000 || obs["recommit_identical"] < 5 || obs["recommit_different_rejected"] < 5 || obs["rejected_requests"] < 20 || obs["usable_after_rejected_checks"] < 20 {
+			if obs["version_queries"] < 10000 || obs["recommit_identical"] < 5 || obs["recommit_different_rejected"] < 5 || obs["rejected_requests"] < 20 || obs["usable_after_rejected_checks"] < 20 || obs["cold_handle_commits_rejected"] < 20 {
 				return fmt.Sprintf("too few observations: %v", obs)
 			}
 			return ""
